@@ -5124,8 +5124,28 @@ where
             return Ok(0);
         };
 
+        // Transactional guard: the removal and the follow-up repair can fail after mutating the
+        // TDS. If they do, roll back so that `Err` leaves the triangulation unchanged.
+        let tds_snapshot = self.tri.tds.clone();
+        let result = self.remove_vertex_by_key(vertex, vertex_key, &tds_snapshot);
+        if result.is_err() {
+            self.tri.tds = tds_snapshot;
+        }
+        result
+    }
+
+    fn remove_vertex_by_key(
+        &mut self,
+        vertex: &Vertex<K::Scalar, U, D>,
+        vertex_key: VertexKey,
+        tds_snapshot: &Tds<K::Scalar, U, V, D>,
+    ) -> Result<usize, TriangulationValidationError>
+    where
+        K::Scalar: ScalarSummable,
+    {
         // Fast path: inverse k=1 flip when the vertex star is a simplex.
         let mut seed_cells: Option<CellKeyBuffer> = None;
+        let generation_before_flip = self.tri.tds.generation();
         let cells_removed = match apply_bistellar_flip_k1_inverse(
             &mut self.tri.tds,
             &self.tri.kernel,
@@ -5141,10 +5161,16 @@ where
                 }
                 .into());
             }
-            Err(_) => self
-                .tri
-                .remove_vertex(vertex)
-                .map_err(TriangulationValidationError::from)?,
+            Err(_) => {
+                // If the flip failed after its first mutation, start the fallback from the
+                // untouched state.
+                if self.tri.tds.generation() != generation_before_flip {
+                    self.tri.tds = tds_snapshot.clone();
+                }
+                self.tri
+                    .remove_vertex(vertex)
+                    .map_err(TriangulationValidationError::from)?
+            }
         };
 
         verif_failpoint!("dtrm.removed", crate::verif_hooks::tri_err("dtrm.removed"));
